@@ -626,7 +626,7 @@ NOPANIC = r"""
     pc.name_constraints = Some(NameConstraints { permitted_subtrees: vec![GeneralSubtree::DnsName("a.example".into()), GeneralSubtree::IpAddress(CidrSubnet::V4([10, 0, 0, 0], [255, 0, 0, 0])),
         GeneralSubtree::IpAddress(CidrSubnet::V6([0x20; 16], [0xff; 16])), GeneralSubtree::DirectoryName(dirname)], excluded_subtrees: vec![GeneralSubtree::Rfc822Name("x@b.example".into())] });
     pc.serial_number = Some(vec![1, 2, 3].into());
-    let cert_der = pc.self_signed(&key).unwrap().der().to_vec();
+    let cert_der = pc.clone().self_signed(&key).unwrap().der().to_vec();
     let key_der = key.serialize_der();
     let spki_der = key.public_key_der();
     let mut count = 0u64;
@@ -657,6 +657,23 @@ NOPANIC = r"""
         let b = text.as_bytes();
         for cut in (0..b.len()).step_by(3) { check(what, &b[..cut]); }
         for pos in (0..b.len()).step_by(2) { let mut d = b.to_vec(); d[pos] = b'!'; check(what, &d); let mut d = b.to_vec(); d[pos] = b'A'; check(what, &d); }
+    }
+    // targeted vectors the mutations above do not reach: name-constraint iPAddress subtrees of every length 0..=33 (hand-encoded extension
+    // value), and certificates carrying an extension twice (the parser's accessors then return Err)
+    for n in 0..=33usize {
+        let mut v = vec![0x30, (6 + n) as u8, 0xa0, (4 + n) as u8, 0x30, (2 + n) as u8, 0x87, n as u8];
+        v.extend(std::iter::repeat(0x0a).take(n));
+        let mut q = CertificateParams::new(vec![]).unwrap(); q.is_ca = IsCa::Ca(BasicConstraints::Unconstrained);
+        q.custom_extensions = vec![CustomExtension::from_oid_content(&[2, 5, 29, 30], v)];
+        let der = q.self_signed(&key).unwrap().der().to_vec();
+        check("certificate with an iPAddress subtree of unusual length", &der);
+    }
+    for (oid_last, content) in [(19u64, vec![0x30, 0x03, 0x01, 0x01, 0xff]), (15, vec![0x03, 0x02, 0x07, 0x80]), (37, vec![0x30, 0x0a, 0x06, 0x08, 0x2b, 6, 1, 5, 5, 7, 3, 1]),
+                                (17, vec![0x30, 0x03, 0x82, 0x01, 0x61]), (30, vec![0x30, 0x00]), (14, vec![0x04, 0x01, 0x07])] {
+        let mut q = pc.clone(); q.custom_extensions = vec![CustomExtension::from_oid_content(&[2, 5, 29, oid_last], content)];
+        if let Ok(c) = q.self_signed(&key) { check("certificate with a duplicated extension", c.der()); }
+        let mut q = p.clone(); q.custom_extensions = vec![CustomExtension::from_oid_content(&[2, 5, 29, oid_last], vec![0x05, 0x00])];
+        if let Ok(r) = q.serialize_request(&key) { check("CSR with an extension of unexpected content", r.der()); }
     }
     let _ = std::panic::take_hook();
     assert!(count > 2000);
